@@ -21,7 +21,10 @@
    The step semantics is the one of the REPAIRED tree (fix: commits for F5 and F6):
      Divider    : val1 / val2 if val2 != 0 else nan      (before: ZeroDivisionError -> round dropped)
      Maximizer  : nan if isnan(val1) or isnan(val2) else max(val1, val2)   (before: max(val1, val2))
-     Minimizer  : likewise. *)
+     Minimizer  : likewise.
+     _BaseHOFormulaBuilder._push / consumption / production return a NEW builder (fix: 466a650;
+     before they mutated self), so a builder is a value and [hb] trees with repeated sub-trees
+     describe builder objects used several times. *)
 From Coq Require Import ZArith NArith QArith List Bool String.
 From Verif Require Import model.Common gen.Formula.
 Import ListNotations.
@@ -618,3 +621,46 @@ Fixpoint render (l : list (list N * sptok)) (trail : list N) : list N :=
   | [] => trail
   | (ws, t) :: r => ws ++ sp_chars t ++ render r trail
   end.
+
+(* ------------------------------------------------------------------ formula generators (C12 <-> C05)
+   Every generator in _formula_generators/*.py drives the builder the same way:
+     push_component_metric(id0, nones_are_zeros=z0)                       (first term, no operator)
+     for each further term:  push_oper("+") or push_oper("-");  push_component_metric(id, nones_are_zeros=z)
+     build()
+   (no parentheses, no constants, no clipper; an empty component set is the single term
+   NON_EXISTING_COMPONENT_ID with nones_are_zeros=True).  A signed term: (plus?, id, nones_are_zeros). *)
+Definition sterm : Type := (bool * N * bool)%type.
+Definition st_op (t : sterm) : bop := if fst (fst t) then Add else Sub.
+Definition st_id (t : sterm) : N := snd (fst t).
+Definition st_nz (t : sterm) : bool := snd t.
+
+Definition signed_calls (n0 : N) (z0 : bool) (rest : list sterm) : builder :=
+  fold_left (fun b t => push_metric (st_id t) (st_nz t) (push_oper (oper_of_bop (st_op t)) b))
+            rest (push_metric n0 z0 empty_builder).
+
+Definition compile_signed (n0 : N) (z0 : bool) (rest : list sterm) : list step * list (N * bool) :=
+  finalize (signed_calls n0 z0 rest).
+
+(* the flag a component id gets: the one of its first occurrence (setdefault) *)
+Definition signed_flag (n0 : N) (z0 : bool) (rest : list sterm) (n : N) : bool :=
+  nz_flag ((n0, z0) :: map (fun t => (st_id t, st_nz t)) rest) n.
+
+(* sum of sign_i * value_i, left to right, on possibly-undefined values *)
+Definition signed_sum (fd : N -> D) (n0 : N) (rest : list sterm) : D :=
+  fold_left (fun acc t => dapp (st_op t) acc (fd (st_id t))) rest (fd n0).
+
+(* ------------------------------------------------------------------ the value domain as an instance of the
+   translated steps' number operations (gen/Formula.v: float_ops; T-tie of the `apply` bodies) *)
+(* Python float ==  (NaN is unequal to everything) *)
+Definition py_eq (a b : val) : bool :=
+  match a, b with
+  | Num x, Num y => Qeq_bool x y
+  | PInf, PInf | NInf, NInf => true
+  | _, _ => false
+  end.
+
+Definition vops (rnd : Q -> val) : float_ops val :=
+  mk_float_ops val (vadd rnd) (vsub rnd) (vmul rnd)
+    (fun a b => if py_eq b (Num 0) then None          (* ZeroDivisionError *)
+                else Some (vdiv rnd a b))             (* IEEE division by a non-zero divisor *)
+    vneg vlt py_eq is_nan is_inf NaN (fun z => Num (inject_Z z)).
